@@ -24,7 +24,7 @@ from . import stdout as c09
 CONFIG = {
     "level": "exploration",
     "rule": "one run = relative-frequency ruleset (<= 80 derivations, 1-4 structures incl. Markov, groups of 1-3 values) loaded by the "
-            "real loader; the scripted RNG sweeps (a) the structure draw and (b) every variable's group draw: midpoint of every "
+            "real loader with drawn --skip_brute / --all_lower; the scripted RNG sweeps (a) the structure draw and (b) every variable's group draw: midpoint of every "
             "reference cell, bisection on the real code for every switch point (measure of each cell vs the reference probability, "
             "1e-9), draws 0.0 and 1-2^-53; (c) every scripted choice index of sampled derivations against the reference expansion; "
             "(d) pcfg_guesser.main() --mode honeywords/random_walk --limit N under scripted extreme draw sequences must write exactly "
